@@ -16,6 +16,7 @@ import sympy
 from engine.algebra import Algebra, LocalDefs
 from engine.bounds import Bounds
 from engine.canon import roles_for
+from engine.cfg import atoms as cfgatoms
 from engine.cfg import CFG, relations
 from engine.extract import Request
 from engine.loops import describe, name_induction_variables
@@ -655,6 +656,57 @@ def rule_h_forward_projection_overwrites(ctx, matrix_fns, rt_fns):
     return n
 
 
+def rule_i_related_bin_range_tested_on_itself(ctx, fns):
+    """get_related_bins_factorised lists the (axial, tangential) positions of the bins related to a basic bin that lie INSIDE the
+    requested range; the matrix projectors (cache off) project exactly that list.  Whether a related bin is listed may depend on the
+    range only through its OWN coordinates: a push of (.., T) that is controlled by a test of another tangential coordinate against
+    min/max_tangential_pos_num drops a bin that is inside the range whenever its partner is outside (seed C04-5: -t nested in the test
+    of +t) - the pieces of a tangential sub-range then no longer add up to the whole."""
+    RULE = "C04.i-related-bin-listed-on-its-own-range-test"
+    n = 0
+    seen = set()
+    for f in sorted(fns, key=lambda g: bool(g.is_dependent)):
+        if f.short != "get_related_bins_factorised" or f.body is None or (f.file, f.body.line) in seen:
+            continue
+        seen.add((f.file, f.body.line))
+        bounds = {"v%d" % p["d"]: p["n"] for p in f.params if re.search(r"(min|max)_(axial|tangential)_pos_num", p.get("n") or "")}
+        if len(bounds) < 4:
+            ctx.unrec(f.qn, "C04.i: the four range parameters were not found")
+            continue
+        k_ = 0
+        for c in f.calls():
+            if (c.callee or "").split("::")[-1] != "push_back" or not c.call_args():
+                continue
+            el = c.call_args()[0].strip()
+            while el.k in ("MaterializeTemporaryExpr", "CXXBindTemporaryExpr", "CXXFunctionalCastExpr") and el.c:
+                el = el.c[-1].strip()
+            if el.k not in ("CXXConstructExpr", "CXXTemporaryObjectExpr") or len(el.c) != 2:
+                continue
+            coords = {"axial": key(el.c[0].strip()), "tangential": key(el.c[1].strip())}
+            foreign = []
+            own = {"axial": False, "tangential": False}
+            for a in c.ancestors():
+                if a.k != "IfStmt" or not a.c or not any(x is c for x in a.c[1].walk()):
+                    continue
+                for at, _tv in cfgatoms(a.c[0], True):
+                    at = at.strip()
+                    if at.k != "BinaryOperator" or at.op not in ("<", "<=", ">", ">="):
+                        continue
+                    l, r = key(at.c[0].strip()), key(at.c[1].strip())
+                    for bk, other in ((l, r), (r, l)):
+                        if bk in bounds:
+                            which = "axial" if "axial" in bounds[bk] else "tangential"
+                            if other == coords[which]:
+                                own[which] = True
+                            else:
+                                foreign.append((bounds[bk], key(at.c[0].strip(), True) if bk == r else key(at.c[1].strip(), True)))
+            ok = not foreign
+            ctx.ob(RULE, f.qn, "push#%d" % k_, ok, c.where(), "listed under range tests of its own coordinates only (tangential tested: %s)" % own["tangential"] if ok else "the related bin with tangential position `%s` is listed only when `%s` passes the test against %s - another bin's coordinate: a related bin inside the requested range is dropped when its partner is outside, so projecting a tangential sub-range piecewise no longer adds up (and cache-off differs from cache-on)" % (key(el.c[1].strip(), True), foreign[0][1], foreign[0][0]))
+            k_ += 1
+            n += 1
+    return n
+
+
 def run(ctx):
     ctx.explanation = (
         "Decides structural necessary conditions only: (a) the row-level forward and back projection use the same elements under the same "
@@ -689,6 +741,11 @@ def run(ctx):
         ctx.fail_broken("tangential sub-range rule matched %d functions (2 confirmed by hand)" % n)
     rule_h_forward_projection_overwrites(ctx, ff[:1], [f for f in us[6].functions if f.body is not None])
     ctx.require_count("C04.h-forward-projection-overwrites", 2)
+    ireq = Request(D + "DataSymmetriesForBins_PET_CartesianGrid.cxx", fn=["stir::DataSymmetriesForBins_PET_CartesianGrid::get_related_bins_factorised"], files=["/repo/src/include/stir/recon_buildblock/DataSymmetriesForBins_PET_CartesianGrid\\.inl"])
+    iu = ctx.ex.get(ireq)
+    if iu is not None:
+        rule_i_related_bin_range_tested_on_itself(ctx, iu.functions)
+        ctx.require_count("C04.i-related-bin-listed-on-its-own-range-test", 4)
     ctx.require_count("C04.a-one-row-two-directions", 3)
     ctx.require_count("C04.b-matched-skeletons", 2)
     ctx.require_count("C04.d-accumulation", 3)
